@@ -308,6 +308,7 @@ def execute(scen):
         live_vec, live_spec = stack.vec_obj(dev0, scen["live"])
         live_el = next(iter(live_spec["elements"].values()))["name"]
         serial = [0]
+        spoofed = [False]
         for st in scen["steps"]:
             if viol:
                 break
@@ -418,7 +419,9 @@ def execute(scen):
                 if mv is None or mv.get_element(live_el).value != uniq2:
                     viol.append({"clause": "C12.others", "detail": f"the observing client did not receive the next device update (sees {mv.get_element(live_el).value if mv else None!r}); {ctx}", "facts": facts})
                     break
-            if observer.started and not viol and entry != "device_kind_from_client":
+            if entry == "device_kind_from_client":
+                spoofed[0] = True  # from here on the observer may hold what the spoofed message told it
+            if observer.started and not viol and not spoofed[0]:
                 # (a device-kind message sent by a client is relayed to the other clients by design: it may legitimately
                 #  put something into the observer's view that the device does not have)
                 v2 = []
